@@ -682,8 +682,14 @@ func (e *CoreExtension) functionRandom(args ...interface{}) (interface{}, error)
 		return nil, errors.New("max must be greater than min")
 	}
 
-	// Generate a random number in the range [min, max]
-	return min + rand.Intn(max-min+1), nil
+	// Generate a random number in the range [min, max]; a span that does not
+	// fit into an int (min and max at opposite ends of the range) is an error,
+	// not a panic in rand.Intn
+	span := max - min + 1
+	if span <= 0 {
+		return nil, errors.New("range between min and max is too large")
+	}
+	return min + rand.Intn(span), nil
 }
 
 func (e *CoreExtension) functionMax(args ...interface{}) (interface{}, error) {
@@ -1958,6 +1964,15 @@ func roundDecimal(v float64, decimals int, mode byte) string {
 	}
 	digits := []byte(intPart + frac)
 	point := len(intPart)
+	// A float64 has at most 17 significant and a few hundred leading or trailing
+	// digits: precisions beyond that change nothing (and would overflow keep, or
+	// ask for gigabytes of zeros)
+	if decimals > 400 {
+		decimals = 400
+	}
+	if decimals < -400 {
+		decimals = -400
+	}
 	keep := point + decimals
 	if len(digits) <= keep {
 		digits = append(digits, bytes.Repeat([]byte{'0'}, keep-len(digits))...)
